@@ -414,6 +414,7 @@ func main() {
 	r.Require("wallet-authored-and-measured", 100)
 	r.Require("wallet-multi-round-selections", 10)
 	r.Require("wallet-sweep-like-requests-authored", 5)
+	r.Require("wallet-requests-with-explicitly-selected-coins", 5)
 	r.Require("wallet-authored-from-the-imported-keys-account", 5)
 	r.Require("signed-and-measured", 800)
 	r.Require("multi-round-selections", 100)
